@@ -141,7 +141,8 @@ def gen_addr(rng, platform: str, *, allow_group=True, allow_nc=True, max_k=4, fo
         sem = ("cube",) + bits.cube(base, w)
         text = f"{bits.int2ip(shown)} {bits.int2ip(w)}"
     else:
-        name = rng.choice(["G1", "G2", "NET-A", "grp_3", "WEB.SRV", "A1"])
+        # (names that merely *contain* a keyword are names like any other)
+        name = rng.choice(["G1", "G2", "NET-A", "grp_3", "WEB.SRV", "A1", "dmz-addrgroup", "my-object-group-1", "anyhost", "hostnet"])
         sem = ("group", name)
         text = ("object-group " if platform == "ios" else "addrgroup ") + name
     return {"text": text, "sem": sem, "form": kind, "native": native, "k": k}
